@@ -2,11 +2,24 @@
  * VCLOCK_OFFSET seconds. Used by the thorough tier of C09 only. */
 #define _GNU_SOURCE
 #include <dlfcn.h>
+#include <stdio.h>
 #include <stdlib.h>
 #include <sys/time.h>
 #include <time.h>
 
+/* offset = VCLOCK_OFFSET, or (if VCLOCK_OFFSET_FILE is set) the number in that file, re-read
+ * on every call so that a process can move its own clock while it runs */
 static long long off(void) {
+  const char *f = getenv("VCLOCK_OFFSET_FILE");
+  if (f) {
+    FILE *h = fopen(f, "r");
+    if (h) {
+      long long v = 0;
+      if (fscanf(h, "%lld", &v) != 1) v = 0;
+      fclose(h);
+      return v;
+    }
+  }
   const char *e = getenv("VCLOCK_OFFSET");
   return e ? atoll(e) : 0;
 }
